@@ -461,7 +461,8 @@ func (g *specGen) Generate() J {
 				pn := pathParams[0]
 				k1, k2 := normKeys(pn)
 				pnames[k1], pnames[k2] = true, true
-				params = append(params, g.parameter("query", pn))
+				// (a plain one: two same-named parameters that both need a type of their own collide — witness corpus)
+				params = append(params, J{"name": pn, "in": "query", "schema": J{"type": "string"}})
 				g.count("op:query-parameter-named-like-the-path-variable")
 			}
 			for q := 0; q < r.Intn(4); q++ {
